@@ -123,22 +123,30 @@ def prove(prop, modules, thorough=False):
             declared += re.findall(r"^theorem\s+([\w.'?!]+)", txt, re.M)
         res["obligations"] = len(declared)
         if res["build_ok"]:
+            # audit: `#print axioms` for every theorem declared in the property module (names parsed from the
+            # source, namespace taken from the file), in one lean run that imports only that module
             for mod in modules:
-                ns = "Neatvi.Props." + mod.split(".")[-1]
-                rc, out = run(["lake", "env", "lean", "--run", "Audit.lean", mod, ns], cwd=LEAN, timeout=600)
-                for line in out.split("\n"):
-                    m = re.match(r"THEOREM (\S+) axioms=(\S*)", line)
-                    if m:
-                        axs = [a for a in m.group(2).split(",") if a]
-                        bad = [a for a in axs if a not in ALLOWED_AXIOMS]
-                        res["theorems"].append({"name": m.group(1), "axioms": axs, "bad": bad})
-                        if bad:
-                            res["failed"].append({"file": mod, "line": 0, "theorem": m.group(1), "msg": "axioms " + ",".join(bad)})
-                    m = re.match(r"OTHER axiom (\S+)", line)
-                    if m:
-                        res["failed"].append({"file": mod, "line": 0, "theorem": m.group(1), "msg": "declared axiom"})
-                if "AUDIT theorems=" not in out:
-                    res["failed"].append({"file": mod, "line": 0, "theorem": None, "msg": "audit did not run: " + out[-300:]})
+                path = os.path.join(LEAN, mod.replace(".", "/") + ".lean")
+                txt = strip_lean_comments(open(path).read())
+                m = re.search(r"^namespace\s+([\w.]+)", txt, re.M)
+                ns = m.group(1) if m else "Neatvi.Props." + mod.split(".")[-1]
+                names = re.findall(r"^theorem\s+([\w.'?!]+)", txt, re.M)
+                audit = os.path.join(LEAN, ".lake", "audit_%s.lean" % mod.split(".")[-1])
+                with open(audit, "w") as f:
+                    f.write("import %s\n" % mod + "".join("#print axioms %s.%s\n" % (ns, n) for n in names))
+                env = dict(os.environ, LEAN_PATH=os.path.join(LEAN, ".lake", "build", "lib", "lean"))
+                rc, out = run(["lean", audit], cwd=LEAN, timeout=1200, env=env)
+                seen = set()
+                for mm in re.finditer(r"'([^']+)' (depends on axioms: \[([^\]]*)\]|does not depend on any axioms)", out.replace("\n", " ")):
+                    axs = [a.strip() for a in (mm.group(3) or "").split(",") if a.strip()]
+                    bad = [a for a in axs if a not in ALLOWED_AXIOMS]
+                    seen.add(mm.group(1))
+                    res["theorems"].append({"name": mm.group(1), "axioms": axs, "bad": bad})
+                    if bad:
+                        res["failed"].append({"file": mod, "line": 0, "theorem": mm.group(1), "msg": "axioms " + ",".join(bad)})
+                for n in names:
+                    if ns + "." + n not in seen:
+                        res["failed"].append({"file": mod, "line": 0, "theorem": n, "msg": "audit: no axiom report (%s)" % out[-200:].replace("\n", " ")})
             res["discharged"] = len([t for t in res["theorems"] if not t["bad"]])
             res["obligations"] = max(res["obligations"], len(res["theorems"]))
             files = []
